@@ -93,10 +93,12 @@ def gen_probe_cases(n, r):
             # (a) a long limit that the short one does not imply although it nearly does (the long period is not a multiple of the
             # short one); (b) a fast short limit with a binding limit of 8-10 s, which makes requests wait for many polling rounds
             fam = [[[2, 2], [5, 5]], [[1, 2], [1, 3]], [[3, 3], [10, 10]], [[2, 3], [3, 5]],
-                   [[2, 1], [1, 8]], [[5, 1], [3, 10]], [[10, 2], [2, 9]], [[19, 10]]][(i // 5) % 8]
+                   [[2, 1], [1, 8]], [[5, 1], [3, 10]], [[10, 2], [2, 9]], [[19, 10]],
+                   # (c) limits a request spacing of 100 ms would already satisfy; (d) three limits whose middle one is the strictest in number
+                   [[12, 1]], [[20, 1]], [[20, 2]], [[10, 1], [15, 1]], [[4, 1], [2, 3], [20, 6]], [[5, 1], [3, 2], [30, 5]], [[6, 1], [4, 2], [9, 5]]][(i // 5) % 15]
             limits = [[n_, '%ds' % p_] for n_, p_ in fam]
             periods = [float(p_) for _, p_ in fam]
-            long_n, long_p = fam[-1]
+            long_n, long_p = min(fam, key=lambda x: x[0] / x[1])
             per = min(2 * long_n + 2, 42) if long_p <= 5 else min(2 * long_n + 1, 40)
             cases.append({'i': i, 'limits': limits, 'period_s': periods, 'callers': 1, 'requests': per, 'gaps_ms': [[]], 'shape': 'nested-burst',
                           'workers': r.choice([1, 4]), 'spawn': False, 'deadline_ms': int(1000 * (per / (long_n / long_p) + 3 * long_p + 20))})
@@ -214,7 +216,7 @@ def run(tier):
     C.build(('harness', 'b1'))
     chk = C.Check('C09', LEVEL, tier)
     r = C.rng('C09')
-    pcs = gen_probe_cases(42 if tier == 'quick' else 200, r)
+    pcs = gen_probe_cases(76 if tier == 'quick' else 300, r)
     bbs = []
     for i in range(4 if tier == 'quick' else 30):
         lim = r.choice([[(4, 2)], [(3, 1), (10, 5)], [(6, 3)], [(2, 1)], [(5, 2), (12, 6)]])
